@@ -415,6 +415,20 @@ def oracle_C18(result):
                 bad.append(("C18:events", f"step {i}: {op} -> {out}: context {j} received {got}, expected {exp}", i))
             if any(not e["source_ok"] for e in new):
                 bad.append(("C18:source", f"step {i}: event with wrong source/topic on context {j}", i))
+    # a listener that reads late has received the same events, each still stamped with its own context
+    if steps and result.get("lazy") is not None:
+        final = steps[-1]["probe"]
+        for j, got in enumerate(result["lazy"]):
+            if j >= len(final):
+                continue
+            eager = [{k: e[k] for k in ("types", "name", "is_factory")} for e in final[j]["events"]]
+            late = [{k: e[k] for k in ("types", "name", "is_factory")} for e in got]
+            if late != eager:
+                bad.append(("C18:late-reader", f"context {j}: a listener reading at the end received {late}, one reading "
+                            f"at once received {eager}", len(steps) - 1))
+            if any(not e["source_ok"] for e in got):
+                bad.append(("C18:source", f"context {j}: an event read late carries another context as its source",
+                            len(steps) - 1))
     return bad
 
 
